@@ -1,7 +1,7 @@
 ------------------------------ MODULE AxisPerm ------------------------------
 (* C08: the solver is equivariant under the cyclic relabelling of the axes.
 
-   Product specification: orientation 1 is a scene (shape N, boundary kind per axis, absorbing layer axis, diagonal
+   Product specification: orientation 1 is a scene (shape N, boundary kind per axis, absorbing-layer parameter per FACE (pi acts on faces: min_x->min_y->min_z->min_x), diagonal
    tensor coefficients, soft source entry, initial fields); orientation 2 is the SAME scene with every per-axis,
    per-cell and per-component attribute relabelled by pi (x->y->z->x).  Both copies take the same half steps
    (AxisPermDefs!YeeE / YeeH, written with one explicit formula per axis like the implementation).
@@ -11,11 +11,11 @@
    ten = "full" runs the full 3x3 tensor update (off-diagonal couplings through four-point averages); the
    relabelled tensor is PermTensor (pi on both indices).
    Variant # "ok" breaks one per-axis branch (layer derivative pair of axis y, curl_y operand order, PEC
-   tangential table of the y faces, averaging location of the yz coupling) in both copies, or relabels only the
+   tangential table of the y faces, averaging location of the yz coupling, per-face parameter table whose min_y entry reads min_x) in both copies, or relabels only the
    diagonal of the tensor ("tensor_diag_only"); TLC must reject those.                                *)
 EXTENDS AxisPermDefs
 
-CONSTANTS Shapes, MaxT, Variant, Kinds
+CONSTANTS Shapes, MaxT, Variant, Kinds, Srcs    \* Srcs: "all" source entries or "few" (first, middle, last)
 
 VARIABLES N, bk, lay, mat, ten, src, ini, E1, H1, E2, H2, pc, t
 vars == << N, bk, lay, mat, ten, src, ini, E1, H1, E2, H2, pc, t >>
@@ -31,15 +31,20 @@ Dense(n, s) == [ i \in 1..Size(n) |-> 1 + Comp(i, n) + 2 * Coord(i, n, 1) + 3 * 
 Zero(n) == [ i \in 1..Size(n) |-> 0 ]
 N2 == PermShape(N)
 PermSrc(s, n) == IF s = 0 THEN 0 ELSE PermIdx(s, n)
-PermLay(l) == IF l[1] < 0 THEN l ELSE << Pi(l[1]), l[2] >>
+PermLay(l) == PermFaceFn(l)
+\* per-face layer parameters: on an open axis no layers, different kappa on the two faces (2 on min, 3 on max), or
+\* a layer on the min face only (kappa 3); other axes carry none
+LayOpt(k) == IF k = "open" THEN { << 0, 0 >>, << 2, 3 >>, << 3, 0 >> } ELSE { << 0, 0 >> }
+LaySet(b) == { [ f \in Faces |-> o[f[1] + 1][IF f[2] = "-" THEN 1 ELSE 2] ] : o \in LayOpt(b[1]) \X LayOpt(b[2]) \X LayOpt(b[3]) }
+SrcSet(n) == IF Srcs = "all" THEN 1..Size(n) ELSE { 1, (Size(n) \div 2) + 2, Size(n) }
 
 Init == /\ N \in Shapes
         /\ bk \in [ 1..3 -> Kinds ]
-        /\ lay \in { << -1, 0 >> } \cup { << a, 2 >> : a \in { a \in 0..2 : bk[a + 1] = "open" } }
+        /\ lay \in LaySet(bk)
         /\ mat = MatOf(N)
-        /\ ten \in {"diag", "full"} /\ (ten = "full" => lay[1] < 0)
+        /\ ten \in {"diag", "full"} /\ (ten = "full" => lay = NoLayers)
         /\ ini \in {"dense", "zero"}
-        /\ src \in IF ini = "zero" THEN 1..Size(N) ELSE {0}
+        /\ src \in IF ini = "zero" THEN SrcSet(N) ELSE {0}
         /\ E1 = IF ini = "dense" THEN Dense(N, 0) ELSE Zero(N)
         /\ H1 = IF ini = "dense" THEN Dense(N, 1) ELSE Zero(N)
         /\ E2 = PermField(E1, N) /\ H2 = PermField(H1, N)
